@@ -364,8 +364,22 @@ func genC06(c *RunCtx) []*Batch {
 	for _, bt := range boundaryTrees() {
 		try(bt.Src(), false, "boundary-depth")
 	}
-	for _, s := range []string{"", " ", ";", "a +", "* a", "+", "a * !b", "[", "1 + [", "]", "1 + ", "(1", "1)", "f(", "f(1,", "f(,)", "if(true,1)", "if(true,1,2,3)", "!!true", "!", "1 2", "a b", "[1, \"a\"]", "[1 2]", "c_now()", "c_sum(1,)", ",", "(,)", "1 + (2", "!(1", "a && ", "|| a", "a == == b"} {
+	for _, s := range []string{"", " ", ";", "a +", "* a", "+", "a * !b", "[", "1 + [", "]", "1 + ", "(1", "1)", "f(", "f(1,", "f(,)", "if(true,1)", "if(true,1,2,3)", "!!true", "!", "1 2", "a b", "[1, \"a\"]", "[1 2]", "c_now()", "c_sum(1,)", ",", "(,)", "1 + (2", "!(1", "a && ", "|| a", "a == == b",
+		"1 2 add(+)", "a b mod(+ * 3)", "1 + 2 3 if(*)", "a b max(&&) == 1", "1 2 3 c_sum(+ +)", "a c_now() b (*)", "x y z if(,)", "1 2 (+)", "(+) 1 2", "a ! b c_id(-)"} {
 		try(s, true, "handwritten")
+	}
+	// token soup in infix notation: operands, operators, function names, parentheses and commas in any order
+	soup := []string{"1", "2", "a", "b0", "i1", "+", "-", "*", "&&", "||", "==", "!", "(", ")", ",", "add", "mod", "if", "c_sum", "c_now", "max", "[", "]", "\"s\""}
+	for k := 0; k < c.N(1500, 60000); k++ {
+		n := 1 + r.Intn(9)
+		parts := make([]string, n)
+		for i := range parts {
+			parts[i] = soup[r.Intn(len(soup))]
+		}
+		try(strings.Join(parts, " "), true, "token-soup")
+		if k%3 == 0 {
+			try(strings.Join(parts, " "), false, "token-soup")
+		}
 	}
 	// every built-in name with 0..3 operands of every kind of literal, bare, under an operator and in infix call syntax:
 	// wrong counts and types must be errors at compile time (constant folding runs them) or at evaluation, never panics
